@@ -400,11 +400,15 @@ pub fn check_b(ops: &[Op], skind: &str, sid: &str, pos: usize, base: &[Result<fx
         match (b, g) {
             (Ok(sb), Ok(sg)) => {
                 if let Some((_, why)) = diff_text(sb, sg, true) {
-                    return vec![Disagreement {
-                        sig: format!("B switch={} op={} damage={}", skind, opk, damage(sb, sg)),
-                        case,
-                        detail: format!("{} {} before operation {}: after operation {} ({:?}) the workbook differs from the run without the switch\n{}", skind, sid, pos, i, ops[i], why),
-                    }];
+                    // one disagreement per kind of damage, so that co-occurring damages do not form new signatures
+                    return damage(sb, sg)
+                        .split('+')
+                        .map(|tag| Disagreement {
+                            sig: format!("B switch={} op={} damage={}", skind, opk, tag),
+                            case: case.clone(),
+                            detail: format!("{} {} before operation {}: after operation {} ({:?}) the workbook differs from the run without the switch\n{}", skind, sid, pos, i, ops[i], why),
+                        })
+                        .collect();
                 }
             }
             (Err(_), Err(_)) => return vec![],
